@@ -75,7 +75,8 @@ func c17Doc(rr *rand.Rand, allowWild bool) (d model.Doc, exp *model.ExpIface, wi
 			}
 			ident[k] = true
 		}
-		if dup || (wild && !allowWild) {
+		_ = dup // identical stanzas are part of the workload since F17 was repaired
+		if wild && !allowWild {
 			continue
 		}
 		return d, exp, wild, deprecated
@@ -252,6 +253,9 @@ func TestVerifC17(t *testing.T) {
 		return
 	}
 	rr := r.Rand("c17", part)
+	if part == "life" {
+		c17Duplicates(r)
+	}
 	n := r.Pick(300, 15000)
 	for i := 0; i < n; i++ {
 		id := fmt.Sprintf("cfg/%d", i)
